@@ -16,8 +16,7 @@ func VerifC01AppendRead() {
 		bs := vChoose(2) + 1
 		msgs := make([]*Message, bs)
 		for i := range msgs {
-			kshape := vChoose(3)
-			vshape := vChoose(3)
+			kshape, vshape := vShapes()
 			k, knil := vField("key", kshape)
 			v, vnil := vField("val", vshape)
 			ts := vNondetInt64("ts")
@@ -58,9 +57,22 @@ type vStored struct {
 	HasHdr bool
 }
 
+// vShapes picks the (key, value) shapes of one message: every one of
+// nil / empty / non-empty occurs for both fields across the four combinations.
+func vShapes() (int, int) {
+	switch vChoose(4) {
+	case 0:
+		return 0, 0 // nil key, nil value
+	case 1:
+		return 1, 2 // empty key, 1-byte value
+	case 2:
+		return 2, 1 // 1-byte key, empty value
+	}
+	return 3, 3 // 2-byte key, 2-byte value
+}
+
 func vDrawMsg(prevTs int64, epoch uint64, withHeaders bool) (*Message, vStored) {
-	kshape := vChoose(3)
-	vshape := vChoose(3)
+	kshape, vshape := vShapes()
 	k, knil := vField("key", kshape)
 	v, vnil := vField("val", vshape)
 	ts := vNondetInt64("ts")
@@ -132,7 +144,7 @@ func VerifC01Ops() {
 	hdrs := vParam("headers", 0) == 1
 	var model []vStored
 	var prevTs int64
-	epoch := vNondetUint64("epoch0")
+	epoch := uint64(1) // epochs are concrete: they are written to the checkpoint file as decimal text
 	// a reader that stays open across the following steps
 	var live *Reader
 	var liveNext int64
@@ -157,9 +169,7 @@ func VerifC01Ops() {
 			}
 			vCover("append")
 		case 1: // replicated message set of 1 message (as produced by a leader)
-			e2 := vNondetUint64("epoch")
-			vAssume(e2 >= epoch)
-			epoch = e2
+			epoch += uint64(vChoose(2))
 			m, st := vDrawMsg(prevTs, epoch, hdrs)
 			prevTs = st.Timestamp
 			st.Offset = int64(len(model))
@@ -238,7 +248,7 @@ func VerifC01LiveReader() {
 	n := vParam("msgs", 3)
 	var model []vStored
 	var prevTs int64
-	epoch := vNondetUint64("epoch0")
+	epoch := uint64(1)
 	// appended as single-message batches so that every alignment of segment
 	// boundaries with the reader position is reachable
 	for i := 0; i < n; i++ {
